@@ -43,7 +43,8 @@ SPEC = {
         "a 'read' is file content or a directory listing; the metadata look-ups of canonicalize/exists made while "
         "checking a path are not counted as reads",
         "the version protocol theorems cover open_source / apply_source and the tracked-text overrides of the analysis "
-        "requests; delete_entry / create_entry / rename_symbol are outside it (open findings with counterexamples)",
+        "requests on ONE document key per file; delete_entry / create_entry, rename_symbol and a second key for the same "
+        "file (in-root directory link) are outside it (open findings with proved counterexamples)",
     ],
 }
 
@@ -66,9 +67,12 @@ MANIFEST = {
                   "operation, and independently evaluates confinement, authorisation, no-leak and no-lost-update "
                   "oracles on the implementation.",
     "level_note": "Partial where the code violates the property: the no-lost-update / chain / last-success theorems hold "
-                  "for the versioned steps only; delete_entry+create_entry (version reuse) and rename_symbol (no expected "
-                  "version) break it - proved counterexamples c19_counterexample_version_reuse / "
-                  "_rename_symbol_bypass, replayed on the real code on every run and listed as open known findings. "
+                  "for the versioned steps only; delete_entry+create_entry (version reuse), rename_symbol (no expected "
+                  "version) and a write through a second document key of the same file (alias through an in-root "
+                  "directory link, needs a stale read) break it - proved counterexamples "
+                  "c19_counterexample_version_reuse / _rename_symbol_bypass / _alias_keys, replayed on the real code on "
+                  "every run and listed as open known findings. Stale unlocked reads are emulated sequentially (the "
+                  "harness shows the locked section a content the file really had after the client's snapshot). "
                   "Trusted, not proved: the hand-written model and the abstract std::fs semantics (validated only by the "
                   "differential run, whose generator bounds what it sees); well-formedness of the file system is a "
                   "hypothesis (preservation not proved); that the model's file system changes nowhere but at the logged "
